@@ -18,10 +18,10 @@ RULE = ("closure of each producer's alphabet: sync {start(0.1), start(0.2), star
         "1/2/128/129, write 0x1017 in {0,100,250} via SDO frame and via local.sdo}; node guarding {start(0.1), start(0.3), "
         "stop()}; x task flavour {modify_data, no modify_data}; combined depth-bounded harness with disconnect(). Invariant "
         "in every state: per producer at most one live task, with the producer's current id/payload/period/remote flag; none "
-        "after stop or heartbeat time 0. non-trivial = states reached by >= 2 operations")
+        "after stop or heartbeat time 0. non-trivial = states reached by >= 2 operations; re-connection: start / disconnect() / connect / (stop) / start / stop for SYNC, RPDO, TPDO, heartbeat, node guarding x {the interface cancels its tasks at shutdown, leaves them running} x {the application shuts its bus down first}, with a node object without NMT on the network; nothing transmits after disconnect()")
 ASSUMPTIONS = [
     "a cyclic task serialises its frame when created / modified, like a real backend (no aliasing of the caller's buffer)",
-    "for the disconnect clause the bus is one whose shutdown() does not itself cancel cyclic tasks (custom interface); stopping them is the library's duty",
+    "combined harness: the bus is one whose shutdown() does not itself cancel cyclic tasks (custom interface), stopping them is the library's duty; the re-connection part covers both kinds of interface",
     "heartbeat: running is demanded after a non-zero write of 0x1017 and none after a zero write; NMT state changes must only update the payload",
 ]
 OD = None
